@@ -5,6 +5,7 @@ import ButlerModel.Driver.C04
 import ButlerModel.Driver.C03
 import ButlerModel.Driver.C17
 import ButlerModel.Driver.C14
+import ButlerModel.Driver.C16
 /-! Line-protocol driver: one request per line on stdin, one reply per line on stdout.
 The first token selects the model; stateful models keep their state in `DState`. -/
 
@@ -12,6 +13,7 @@ structure DState where
   cal : Calib.State := []
   ch : Driver.C03.St := {}
   cache : Driver.C17.St := {}
+  page : Driver.C16.St := {}
 
 def step (st : DState) (line : String) : DState × String :=
   let toks := (line.splitOn " ").filter (· ≠ "")
@@ -23,6 +25,7 @@ def step (st : DState) (line : String) : DState × String :=
   | "cal" :: rest => let (c, out) := Driver.C04.handle st.cal rest; ({ st with cal := c }, out)
   | "ch" :: rest => let (c, out) := Driver.C03.handle st.ch rest; ({ st with ch := c }, out)
   | "cache" :: rest => let (c, out) := Driver.C17.handle st.cache rest; ({ st with cache := c }, out)
+  | "page" :: rest => let (c, out) := Driver.C16.handle st.page rest; ({ st with page := c }, out)
   | _ => (st, "bad-op")
 
 partial def loop (h : IO.FS.Stream) (out : IO.FS.Stream) (st : DState) : IO Unit := do
